@@ -14,6 +14,7 @@ ALL = C.ALL_MESSAGE_TYPES
 STAT_TYPES = (C.MT_TIMING_MESSAGE, C.MT_MESSAGE_TRAFFIC)
 NOT_DATA = set(C.CONTROL_TYPES)
 DISTINCT = [0, 1, 2, 63, 64, 65, 128, 129, 300]
+DISTINCT_W = [(3, 0), (4, 1), (4, 2), (2, 63), (3, 64), (3, 65), (1, 128), (1, 129), (1, 300)]
 
 
 class StatsRun:
@@ -109,7 +110,7 @@ class StatsRun:
         w = self.w
         d = self.forced.get("distinct")
         if d is None:
-            d = ch.choose("iv.distinct", DISTINCT)
+            d = ch.weighted("iv.distinct", DISTINCT_W)
         base = ch.choose("iv.base", [0, 1, 5, 9990 - d if d < 9000 else 0, 9999 - max(d - 1, 0), 100])
         base = max(0, base)
         edge = ch.flag("iv.edge", 1, 4)
@@ -127,9 +128,9 @@ class StatsRun:
         per = self.forced.get("count")
         if per is None:
             per = ch.weighted("iv.count", [(6, 1), (3, 2), (2, 7), (1, 300)])
-        if d > 64 and per > 7:
+        if d > 2 and per > 7:
             per = 2
-        if d == 1 and ch.flag("iv.huge", 1, 25):
+        if d == 1 and ch.flag("iv.huge", 1, 40):
             per = ch.choose("iv.hugecount", [40000, 65535, 40000, 65534])
             self.res.probes["huge_count"] += 1
         if self.watch_mode:
@@ -166,6 +167,26 @@ class StatsRun:
         w.advance(dt)
         for _ in range(1 + ch.pick("iv.idle", 3)):
             w.step()
+        if ch.flag("iv.intruder", 1, 6):
+            # a newcomer asks for an id that is taken (or an id that is out of range): it is refused, and the
+            # pid reported for the incumbent must not change
+            victim = ch.choose("iv.intr_id", [a.mod_id for a in self.pubs if a.mod_id] + [150, 101])
+            x = Actor(w, f"intruder{self.res.probes['intruders']}")
+            x.open()
+            x.handshake("v2v1", req_id=victim, pid=666, name=b"", allow_multiple=False)
+            w.quiesce()
+            self.res.probes["intruders"] += 1
+            self.t(f"a newcomer asks for id {victim} and is refused")
+        if ch.flag("iv.twin_leaves", 1, 8):
+            twins = [a for a in self.pubs if a.req_id == 20 and a.alive]
+            if len(twins) >= 2:
+                gone = twins[-1]
+                gone.leave(ch.choose("iv.twl", ["fin", "rst"]))
+                self.pubs.remove(gone)
+                w.quiesce()
+                self.gone = getattr(self, "gone", []) + [(gone, w.net.seq)]
+                self.res.probes["sharing_instance_left"] += 1
+                self.t(f"{gone.name} (one of the modules sharing id 20) leaves")
         if ch.flag("iv.ready", 1, 5):
             p = ch.choose("iv.rp", self.pubs)
             p.pid = 2000 + ch.pick("iv.newpid", 500)
@@ -308,6 +329,9 @@ class StatsRun:
                     if ss < wfr.seq <= sd:
                         ok.add(p)          # change in flight at report time: old or new
                 want_pids.setdefault(a.mod_id, set()).update(ok)
+            for a, until in getattr(self, "gone", []):
+                if wfr.seq <= until and a.mod_id and a.mod_id < 200:
+                    want_pids.setdefault(a.mod_id, set()).update(p for (_s, _d, p) in a.pid_hist)
             want_pids.setdefault(90, set()).add(9090)
             for mid, ps in want_pids.items():
                 if ps and pids[mid] not in ps:
